@@ -25,7 +25,8 @@ import (
 
 const target = "x.io/target"
 
-var allPaths = []string{"", "a", "x.io/p", "github.com/a/b/v2", "gopkg.in/yaml.v3", target}
+// ("x.io/q/a" gets the import name a - which is also a one-element package PATH of the alphabet)
+var allPaths = []string{"", "a", "x.io/p", "github.com/a/b/v2", "gopkg.in/yaml.v3", target, "x.io/q/a"}
 var idents = []string{"T", "string"}
 
 type node struct {
@@ -376,6 +377,8 @@ func run(c *core.Ctx) {
 		{"4-heads depth2 width2", three, 2, 2},
 		{"2-heads depth3 width2", two, 3, 2},
 		{"2-heads depth2 width3", two, 2, 3},
+		// a package path that is spelled like the import name another package gets, in every nesting order
+		{"name-like-path-heads depth2 width2", []head{{"", "T"}, {"a", "T"}, {"x.io/q/a", "T"}}, 2, 2},
 	}
 	if c.Thorough() {
 		spaces = append(spaces,
@@ -446,7 +449,7 @@ func replay(c *core.Ctx, raw json.RawMessage) {
 func init() {
 	core.Register(&core.Prop{
 		ID: "C15", Level: "model_checking", Run: run, Replay: replay,
-		Rule: "every reference string of the grammar ref ::= [path '.'] ident ['[' ref {',' ref} ']'] inside the listed (heads, depth, width) spaces, heads = paths {none, a, x.io/p, github.com/a/b/v2, gopkg.in/yaml.v3 (dot in the last element), the target package} x idents {T, string}; non-trivial = has a bracketed argument list; states = distinct (depth, top-level path?, argument count) classes",
+		Rule: "every reference string of the grammar ref ::= [path '.'] ident ['[' ref {',' ref} ']'] inside the listed (heads, depth, width) spaces, heads = paths {none, a, x.io/p, github.com/a/b/v2, gopkg.in/yaml.v3 (dot in the last element), the target package, x.io/q/a (whose import name is spelled like the one-element path a)} x idents {T, string}; non-trivial = has a bracketed argument list; states = distinct (depth, top-level path?, argument count) classes",
 		Assumptions: []string{
 			"paths containing '[' ',' ']' or '/vendor/' are outside the grammar",
 			"the reference rewriter takes import names from the tracker (uniqueness/validity of names is C03's subject)",
